@@ -23,5 +23,21 @@ def run(prop, tier, seed, replay):
         common.ensure_impl_python()
         import policy_check
         return policy_check.run(prop, tier, seed, replay)
+    if prop == 'C16':
+        common.ensure_impl_python()
+        import purity_check
+        return purity_check.run(prop, tier, seed, replay)
+    if prop in ('C11', 'C12'):
+        common.ensure_impl_python()
+        import hier_check
+        return hier_check.run(prop, tier, seed, replay)
+    if prop in ('C04', 'C06'):
+        common.ensure_impl_python()
+        import verilog_check
+        return verilog_check.run(prop, tier, seed, replay)
+    if prop == 'C20':
+        common.ensure_impl_python()
+        import cmp_check
+        return cmp_check.run(prop, tier, seed, replay)
     print('no check registered for', prop)
     return 2
